@@ -5,7 +5,7 @@
 # Output: a summary on stdout; logs under /tmp/seedeval/<prop><variant>/
 set -u
 P=$1; V=$2; shift 2
-SRC=/tmp/mut/out/$P/$V
+SRC=${SEED_ROOT:-/tmp/mut/out}/$P/$V
 WT=/tmp/seedwt-$P$V
 LOG=/tmp/seedeval/$P$V; mkdir -p $LOG
 export GOFLAGS=-mod=mod GOPROXY=off
